@@ -1,6 +1,8 @@
 import XPathV.Lemmas.PathSem
 import XPathV.Lemmas.C07Base
 import XPathV.Lemmas.C08Base
+import XPathV.Lemmas.ArithSem
+import XPathV.Lemmas.StringFns.Nested
 /-!
 # C07 — comparison and boolean operators follow XPath 1.0, at the level of *expressions*
 
@@ -10,9 +12,14 @@ import XPathV.Lemmas.C08Base
 2. states `and`/`or` (with short-circuit) and `not()`/`boolean()`/`true()`/`false()` at the
    `evalP` level,
 3. assembles them into a theorem about comparison expressions over literals and predicate-free
-   paths (`CmpExp`), closed under `and`/`or`/`not()`/`boolean()`/grouping (`XExp`), for the
-   un-rewritten plans (`xplan`),
-4. transports it through `build`.
+   paths (`CmpExp`), closed under `and`/`or`/`not()`/`boolean()`/grouping (`XExpG`, over two leaf
+   fragments of number- and string-valued expressions; `XExp0` = no leaves) for the un-rewritten
+   plans (`xplan`),
+4. transports it through `build`, with the arithmetic expressions of C08 (`ArithSem.NumEC`) and the
+   nested string-function calls of C09 (`StringFns.StrE`) as leaves: `XExp`.
+
+After the repair of `notFunc` (`default: return !asBool(t, v)`) `not()` takes an operand of any
+type: `callFn_not_spec`, `sem_not`, and the `not` constructor of `XExpG` have no restriction left.
 -/
 namespace XPathV.CmpSem
 open XPathV XPathV.Model NumAlg XPathV.PathSem
@@ -246,25 +253,53 @@ theorem callFn_not_nodes (d : Doc) (cfg : ECfg) (fi : Plan) (c : Ref) (ctx : Spe
   · have h : Spec.callFn (F := F) d ctx "not" [.nodes l] = .ok (.bool (!Spec.toBool (F := F) (.nodes l))) := rfl
     rw [h]; simp [Spec.toBool]
 
-/-- `not(v)` in one statement, for the argument types on which the model agrees with XPath -/
-theorem callFn_not (d : Doc) (cfg : ECfg) (fi : Plan) (c : Ref) (ctx : Spec.Ctx)
-    (v : Spec.Value F) (hv : (∃ b, v = .bool b) ∨ (∃ l, v = .nodes l)) (asel : Option (List Ref)) :
+/-- **`not(v)` is the oracle's, for every type of argument** (after the repair of `notFunc`: the
+default arm is `!asBool(v)`): boolean ↦ `!b`, node-set ↦ "is empty", number ↦ "is 0 or NaN",
+string ↦ "is empty" -/
+theorem callFn_not_spec (d : Doc) (cfg : ECfg) (fi : Plan) (c : Ref) (ctx : Spec.Ctx)
+    (v : Spec.Value F) (asel : Option (List Ref)) :
     callFn (F := F) d cfg "not" fi c [.ok (emb v)] asel = .ok (.bool (!Spec.toBool v)) ∧
     Spec.callFn (F := F) d ctx "not" [v] = .ok (.bool (!Spec.toBool v)) := by
-  rcases hv with ⟨b, rfl⟩ | ⟨l, rfl⟩
-  · exact callFn_not_bool d cfg fi c ctx b asel
-  · simpa [Spec.toBool, emb] using callFn_not_nodes (F := F) d cfg fi c ctx l asel
+  refine ⟨?_, rfl⟩
+  cases v <;> simp [callFn, emb, asBoolM, Spec.toBool, bind, Except.bind]
 
-/-- what the model does with `not(number)` / `not(string)`: the constant `false` (the Go code has no
-arm for these types); the oracle says `not(boolean(v))`.  These argument types are therefore left
-out of the expression fragment below. -/
-theorem callFn_not_num_model (d : Doc) (cfg : ECfg) (fi : Plan) (c : Ref) (x : F) (asel : Option (List Ref)) :
-    callFn (F := F) d cfg "not" fi c [.ok (.num x)] asel = .ok (.bool false) := by
-  simp [callFn, bind, Except.bind]
+/-- `not(v)` on a boolean or a node-set (the two arms the Go code always had); kept for reference —
+`callFn_not_spec` has no restriction on the type -/
+theorem callFn_not (d : Doc) (cfg : ECfg) (fi : Plan) (c : Ref) (ctx : Spec.Ctx)
+    (v : Spec.Value F) (_hv : (∃ b, v = .bool b) ∨ (∃ l, v = .nodes l)) (asel : Option (List Ref)) :
+    callFn (F := F) d cfg "not" fi c [.ok (emb v)] asel = .ok (.bool (!Spec.toBool v)) ∧
+    Spec.callFn (F := F) d ctx "not" [v] = .ok (.bool (!Spec.toBool v)) :=
+  callFn_not_spec d cfg fi c ctx v asel
 
-theorem callFn_not_str_model (d : Doc) (cfg : ECfg) (fi : Plan) (c : Ref) (s : String) (asel : Option (List Ref)) :
-    callFn (F := F) d cfg "not" fi c [.ok (.str s)] asel = .ok (.bool false) := by
-  simp [callFn, bind, Except.bind]
+/-- `not(number)`: true exactly when the number is zero or NaN — model and oracle (replaces the old
+`callFn_not_num_model`, which recorded the constant `false` of the defective `notFunc`) -/
+theorem callFn_not_num_spec (d : Doc) (cfg : ECfg) (fi : Plan) (c : Ref) (ctx : Spec.Ctx) (x : F)
+    (asel : Option (List Ref)) :
+    callFn (F := F) d cfg "not" fi c [.ok (.num x)] asel = .ok (.bool (!Spec.toBool (F := F) (.num x))) ∧
+    Spec.callFn (F := F) d ctx "not" [.num x] = .ok (.bool (!Spec.toBool (F := F) (.num x))) :=
+  callFn_not_spec d cfg fi c ctx (.num x) asel
+
+/-- `not(string)`: true exactly when the string is empty — model and oracle (replaces the old
+`callFn_not_str_model`) -/
+theorem callFn_not_str_spec (d : Doc) (cfg : ECfg) (fi : Plan) (c : Ref) (ctx : Spec.Ctx) (s : String)
+    (asel : Option (List Ref)) :
+    callFn (F := F) d cfg "not" fi c [.ok (.str s)] asel = .ok (.bool (s == "")) ∧
+    Spec.callFn (F := F) d ctx "not" [.str s] = .ok (.bool (s == "")) := by
+  have h := callFn_not_spec (F := F) d cfg fi c ctx (.str s) asel
+  have e : (!Spec.toBool (F := F) (.str s)) = (s == "") := by simp [Spec.toBool, bne]
+  rw [e] at h
+  exact h
+
+/-- the arguments `not` cannot convert: the Go `int` that `round()` returns makes `asBool` panic
+("unexpected type"), in `not` as in `boolean` -/
+theorem callFn_not_int_crash (d : Doc) (cfg : ECfg) (fi : Plan) (c : Ref) (i : Int) (asel : Option (List Ref)) :
+    callFn (F := F) d cfg "not" fi c [.ok (.int i)] asel = .error (.crash .unknownType) := by
+  simp [callFn, asBoolM, bind, Except.bind]
+
+/-- `not` on any model value: the negation of `asBool` (the `int` crash included) -/
+theorem callFn_not_asBool (d : Doc) (cfg : ECfg) (fi : Plan) (c : Ref) (v : MVal F) (asel : Option (List Ref)) :
+    callFn (F := F) d cfg "not" fi c [.ok v] asel = (asBoolM v).bind (fun b => .ok (.bool (!b))) := by
+  cases v <;> simp [callFn, asBoolM, bind, Except.bind]
 
 /-! ## 3. Expression level -/
 
@@ -643,26 +678,17 @@ theorem sem_boolean (d : Doc) (cfg : ECfg) (c : Ref) (ka : Kind) (q : Plan) (a :
   · rw [spec_call1 d "boolean" pfx a _ va ga hsa, (callFn_boolean d cfg fi c ⟨c, 1, 1⟩ va none).2]
     rfl
 
-/-- `not()` over a boolean-valued or node-set-valued operand of the fragment -/
-theorem sem_not (d : Doc) (cfg : ECfg) (c : Ref) (ka : Kind) (hka : ka = .bool ∨ ka = .set)
+/-- `not()` over an operand of the fragment of **any** type (boolean, node-set, number, string):
+the oracle's `not(boolean(v))` -/
+theorem sem_not (d : Doc) (cfg : ECfg) (c : Ref) (ka : Kind)
     (q : Plan) (a : Ast) (pfx : String) (fi : Plan) (ha : Sem (F := F) d cfg c ka q a) :
     Sem (F := F) d cfg c .bool (.func "not" fi (.pcons q .pnil)) (.call "not" pfx (.acons a .anil)) := by
   obtain ⟨ma, va, ga, hea, hsa, hra, hk⟩ := ha
   have hspec : Spec.callFn (F := F) d ⟨c, 1, 1⟩ "not" [va] = .ok (.bool (!Spec.toBool va)) := rfl
   refine ⟨.bool (!Spec.toBool va), .bool (!Spec.toBool va), none, ?_, ?_, rfl, rfl⟩
   · rw [evalP_func1 d cfg c "not" fi q (by decide), hea]
-    cases va with
-    | nodes ns =>
-      cases ma <;> simp only [VRel] at hra
-      rename_i l
-      rw [(callFn_not_nodes d cfg fi c ⟨c, 1, 1⟩ l none).1]
-      simp [Spec.toBool, isEmpty_congr_mem _ _ hra]
-    | bool b =>
-      cases ma <;> simp only [VRel] at hra
-      subst hra
-      exact (callFn_not_bool d cfg fi c ⟨c, 1, 1⟩ _ none).1
-    | num x => rcases hka with h | h <;> rw [h] at hk <;> cases hk
-    | str s => rcases hka with h | h <;> rw [h] at hk <;> cases hk
+    obtain ⟨v', rfl, _, _, _, ht⟩ := vrel_emb d ma va hra
+    rw [(callFn_not_spec d cfg fi c ⟨c, 1, 1⟩ v' none).1, ht]
   · rw [spec_call1 d "not" pfx a _ va ga hsa, hspec]
     rfl
 
@@ -766,35 +792,68 @@ theorem cmp_sem_evalTop {d : Doc} (wf : WF d) (cfg : ECfg) (hns : cfg.nsIface = 
 
 /-! ### closure under `and` / `or` / `not()` / `boolean()` / `true()` / `false()` / parentheses -/
 
-/-- the expression fragment, indexed by the static type of the expression.  Comparison nodes take
-*any* two expressions of the fragment as operands, on the type pairs of `pairOK` (which contains
-the property's seven pairs); `and`, `or`, `boolean()` take operands of any type; `not()` takes a
-boolean or a node-set (the model's `not` has no arm for numbers and strings). -/
-inductive XExp : Kind → Ast → Prop
-  | num (lex : String) : XExp .num (.num lex)
-  | str (s : String) : XExp .str (.str s)
-  | path (p : Ast) : PathPF p → XExp .set p
+/-- the expression fragment, indexed by the static type of the expression, over two leaf fragments
+`NP` (number-valued expressions) and `SP` (string-valued expressions).  Comparison nodes take *any*
+two expressions of the fragment as operands, on the type pairs of `pairOK` (which contains the
+property's seven pairs); `and`, `or`, `boolean()` and — after the repair of `notFunc` — `not()`
+take an operand of **any** type. -/
+inductive XExpG (NP SP : Ast → Prop) : Kind → Ast → Prop
+  | num (lex : String) : XExpG NP SP .num (.num lex)
+  | str (s : String) : XExpG NP SP .str (.str s)
+  | path (p : Ast) : PathPF p → XExpG NP SP .set p
+  /-- a number-valued expression of the leaf fragment (arithmetic, `count()`, …) -/
+  | numE (e : Ast) : NP e → XExpG NP SP .num e
+  /-- a string-valued expression of the leaf fragment (string functions) -/
+  | strE (e : Ast) : SP e → XExpG NP SP .str e
   | cmp (op : String) (cop : Spec.CmpOp) (ka kb : Kind) (a b : Ast) :
-      Spec.CmpOp.ofString op = some cop → XExp ka a → XExp kb b → pairOK cop ka kb = true →
-      XExp .bool (.oper op a b)
-  | and (ka kb : Kind) (a b : Ast) : XExp ka a → XExp kb b → XExp .bool (.oper "and" a b)
-  | or (ka kb : Kind) (a b : Ast) : XExp ka a → XExp kb b → XExp .bool (.oper "or" a b)
-  | not (ka : Kind) (a : Ast) (pfx : String) : (ka = .bool ∨ ka = .set) → XExp ka a →
-      XExp .bool (.call "not" pfx (.acons a .anil))
-  | boolean (ka : Kind) (a : Ast) (pfx : String) : XExp ka a →
-      XExp .bool (.call "boolean" pfx (.acons a .anil))
-  | true (pfx : String) : XExp .bool (.call "true" pfx .anil)
-  | false (pfx : String) : XExp .bool (.call "false" pfx .anil)
-  | group (k : Kind) (a : Ast) : XExp k a → XExp k (.group a)
+      Spec.CmpOp.ofString op = some cop → XExpG NP SP ka a → XExpG NP SP kb b → pairOK cop ka kb = true →
+      XExpG NP SP .bool (.oper op a b)
+  | and (ka kb : Kind) (a b : Ast) : XExpG NP SP ka a → XExpG NP SP kb b → XExpG NP SP .bool (.oper "and" a b)
+  | or (ka kb : Kind) (a b : Ast) : XExpG NP SP ka a → XExpG NP SP kb b → XExpG NP SP .bool (.oper "or" a b)
+  | not (ka : Kind) (a : Ast) (pfx : String) : XExpG NP SP ka a →
+      XExpG NP SP .bool (.call "not" pfx (.acons a .anil))
+  | boolean (ka : Kind) (a : Ast) (pfx : String) : XExpG NP SP ka a →
+      XExpG NP SP .bool (.call "boolean" pfx (.acons a .anil))
+  | true (pfx : String) : XExpG NP SP .bool (.call "true" pfx .anil)
+  | false (pfx : String) : XExpG NP SP .bool (.call "false" pfx .anil)
+  | group (k : Kind) (a : Ast) : XExpG NP SP k a → XExpG NP SP k (.group a)
 
-theorem XExp.of_opnd (a : Ast) (h : Opnd a) : XExp (okind a) a := by
+/-- **the C07 fragment**: number-valued leaves are the arithmetic expressions of C08
+(`ArithSem.NumEC`: literals, `+ - * div`, unary minus, `floor`, `ceiling`, `number`,
+`string-length('…')`, `count` over flat paths), string-valued leaves the nested string-function
+calls of C09 (`StringFns.StrE`: `concat`, `substring-before/after`, `substring`, `normalize-space`,
+`translate`, `lower-case`, `string`).  So `not(count(b))`, `not(1 - 1)`, `not(concat('', ''))`,
+`count(a) > 1 and not('')` … are all in the fragment. -/
+abbrev XExp : Kind → Ast → Prop := XExpG ArithSem.NumEC StringFns.StrE
+
+/-- the core fragment without leaf fragments (literals and paths only) -/
+abbrev XExp0 : Kind → Ast → Prop := XExpG (fun _ => False) (fun _ => False)
+
+theorem XExpG.mono {NP NP' SP SP' : Ast → Prop} (hn : ∀ e, NP e → NP' e) (hs : ∀ e, SP e → SP' e)
+    {k : Kind} {e : Ast} (h : XExpG NP SP k e) : XExpG NP' SP' k e := by
+  induction h with
+  | num lex => exact .num lex
+  | str s => exact .str s
+  | path p hp => exact .path p hp
+  | numE e he => exact .numE e (hn e he)
+  | strE e he => exact .strE e (hs e he)
+  | cmp op cop ka kb a b hop _ _ hk iha ihb => exact .cmp op cop ka kb a b hop iha ihb hk
+  | and ka kb a b _ _ iha ihb => exact .and ka kb a b iha ihb
+  | or ka kb a b _ _ iha ihb => exact .or ka kb a b iha ihb
+  | not ka a pfx _ ih => exact .not ka a pfx ih
+  | boolean ka a pfx _ ih => exact .boolean ka a pfx ih
+  | true pfx => exact .true pfx
+  | false pfx => exact .false pfx
+  | group k a _ ih => exact .group k a ih
+
+theorem XExpG.of_opnd {NP SP : Ast → Prop} (a : Ast) (h : Opnd a) : XExpG NP SP (okind a) a := by
   cases h with
   | num lex => exact .num lex
   | str s => exact .str s
   | path p hp => cases hp <;> exact .path _ (by constructor <;> assumption)
 
 /-- the property's comparison expressions are in the fragment -/
-theorem XExp.of_cmpExp (e : Ast) (h : CmpExp e) : XExp .bool e := by
+theorem XExpG.of_cmpExp {NP SP : Ast → Prop} (e : Ast) (h : CmpExp e) : XExpG NP SP .bool e := by
   cases h with
   | mk op cop a b hop ha hb hk =>
     exact .cmp op cop _ _ a b hop (.of_opnd a ha) (.of_opnd b hb) (pairC07_ok cop _ _ hk)
@@ -808,13 +867,17 @@ inductive BExp : Ast → Prop
   | not (a : Ast) (pfx : String) : BExp a → BExp (.call "not" pfx (.acons a .anil))
   | boolean (a : Ast) (pfx : String) : BExp a → BExp (.call "boolean" pfx (.acons a .anil))
 
-theorem XExp.of_bexp (e : Ast) (h : BExp e) : XExp .bool e := by
+theorem XExpG.of_bexp {NP SP : Ast → Prop} (e : Ast) (h : BExp e) : XExpG NP SP .bool e := by
   induction h with
   | cmp e he => exact .of_cmpExp e he
   | and a b _ _ iha ihb => exact .and _ _ a b iha ihb
   | or a b _ _ iha ihb => exact .or _ _ a b iha ihb
-  | not a pfx _ ih => exact .not _ a pfx (Or.inl rfl) ih
+  | not a pfx _ ih => exact .not _ a pfx ih
   | boolean a pfx _ ih => exact .boolean _ a pfx ih
+
+theorem XExp.of_opnd (a : Ast) (h : Opnd a) : XExp (okind a) a := XExpG.of_opnd a h
+theorem XExp.of_cmpExp (e : Ast) (h : CmpExp e) : XExp .bool e := XExpG.of_cmpExp e h
+theorem XExp.of_bexp (e : Ast) (h : BExp e) : XExp .bool e := XExpG.of_bexp e h
 
 /-- the un-rewritten plan of an expression: literals → constants, paths → `naivePlan`, comparison
 nodes → `.logical`, `and`/`or` → `.boolean`, calls → `.func` (no first input), `(e)` → `.group` -/
@@ -849,23 +912,35 @@ theorem xplan_cmp (op : String) (cop : Spec.CmpOp) (hop : Spec.CmpOp.ofString op
   rcases ofString_inv op cop hop with h | h | h | h | h | h <;> subst h <;> simp [xplan]
 
 /-- **C07, expression level (un-rewritten plans)**: every expression of the fragment is evaluated by
-its plan, without failure, to (a representative of) the value the XPath 1.0 oracle assigns to it -/
-theorem xexp_sem {d : Doc} (wf : WF d) (cfg : ECfg) (hns : cfg.nsIface = true)
-    (hinj : HashInj d cfg) (c : Ref) (hc : validRef d c = true) (k : Kind) (e : Ast) (h : XExp k e) :
+its plan, without failure, to (a representative of) the value the XPath 1.0 oracle assigns to it —
+for any leaf fragments whose members are (`hN`, `hS`) -/
+theorem xexpG_sem {d : Doc} (wf : WF d) (cfg : ECfg) (hns : cfg.nsIface = true)
+    (hinj : HashInj d cfg) (c : Ref) (hc : validRef d c = true) {NP SP : Ast → Prop}
+    (hN : ∀ e, NP e → Sem (F := F) d cfg c .num (xplan e) e)
+    (hS : ∀ e, SP e → Sem (F := F) d cfg c .str (xplan e) e)
+    (k : Kind) (e : Ast) (h : XExpG NP SP k e) :
     Sem (F := F) d cfg c k (xplan e) e := by
   induction h with
   | num lex => exact sem_num d cfg c lex
   | str s => exact sem_str d cfg c s
   | path p hp => rw [xplan_path p hp]; exact sem_path_naive wf cfg hns hinj c hc p hp
+  | numE e he => exact hN e he
+  | strE e he => exact hS e he
   | cmp op cop ka kb a b hop _ _ hk iha ihb =>
     rw [xplan_cmp op cop hop]; exact sem_cmp d cfg c op cop hop ka kb _ _ a b iha ihb hk
   | and ka kb a b _ _ iha ihb => exact sem_and d cfg c ka kb _ _ a b iha ihb
   | or ka kb a b _ _ iha ihb => exact sem_or d cfg c ka kb _ _ a b iha ihb
-  | not ka a pfx hka _ ih => exact sem_not d cfg c ka hka _ a pfx .nil ih
+  | not ka a pfx _ ih => exact sem_not d cfg c ka _ a pfx .nil ih
   | boolean ka a pfx _ ih => exact sem_boolean d cfg c ka _ a pfx .nil ih
   | true pfx => exact sem_true d cfg c pfx .nil
   | false pfx => exact sem_false d cfg c pfx .nil
   | group k a _ ih => exact sem_group d cfg c k _ a ih
+
+/-- the core fragment (literals and paths as leaves) on un-rewritten plans -/
+theorem xexp_sem {d : Doc} (wf : WF d) (cfg : ECfg) (hns : cfg.nsIface = true)
+    (hinj : HashInj d cfg) (c : Ref) (hc : validRef d c = true) (k : Kind) (e : Ast) (h : XExp0 k e) :
+    Sem (F := F) d cfg c k (xplan e) e :=
+  xexpG_sem wf cfg hns hinj c hc (fun _ h => h.elim) (fun _ h => h.elim) k e h
 
 /-- a `Sem` of boolean kind in plain words: both sides yield the same truth value -/
 theorem sem_bool_out (d : Doc) (cfg : ECfg) (c : Ref) (q : Plan) (e : Ast)
@@ -878,7 +953,7 @@ theorem sem_bool_out (d : Doc) (cfg : ECfg) (c : Ref) (q : Plan) (e : Ast)
 /-- **C07 for boolean-valued expressions of the fragment**: comparison expressions closed under
 `and`/`or`/`not()`/`boolean()` (any nesting) evaluate to the truth value the oracle assigns -/
 theorem bool_expr_sem {d : Doc} (wf : WF d) (cfg : ECfg) (hns : cfg.nsIface = true)
-    (hinj : HashInj d cfg) (c : Ref) (hc : validRef d c = true) (e : Ast) (h : XExp .bool e) :
+    (hinj : HashInj d cfg) (c : Ref) (hc : validRef d c = true) (e : Ast) (h : XExp0 .bool e) :
     ∃ t : Bool, evalP (F := F) d cfg (xplan e) c = .ok (.bool t) ∧
       Spec.evalTop (F := F) d e c = .ok (.bool t) :=
   sem_bool_out d cfg c _ e (xexp_sem wf cfg hns hinj c hc .bool e h)
@@ -887,7 +962,7 @@ theorem bexp_sem {d : Doc} (wf : WF d) (cfg : ECfg) (hns : cfg.nsIface = true)
     (hinj : HashInj d cfg) (c : Ref) (hc : validRef d c = true) (e : Ast) (h : BExp e) :
     ∃ t : Bool, evalP (F := F) d cfg (xplan e) c = .ok (.bool t) ∧
       Spec.evalTop (F := F) d e c = .ok (.bool t) :=
-  bool_expr_sem wf cfg hns hinj c hc e (.of_bexp e h)
+  bool_expr_sem wf cfg hns hinj c hc e (XExpG.of_bexp e h)
 
 /-! ## 4. Through `build` -/
 
@@ -1080,16 +1155,24 @@ theorem build_cmp_q (op : String) (cop : Spec.CmpOp) (hop : Spec.CmpOp.ofString 
 /-- **C07 through `build`**: for every expression of the fragment, the plan the builder produces
 (paths with all their rewrites; comparison nodes as `logicalQuery`, `and`/`or` as `booleanQuery`,
 calls as `functionQuery`, parentheses as `groupQuery`) evaluates, at every valid context node of a
-well-formed document, to (a representative of) the oracle's value -/
-theorem build_xexp {d : Doc} (wf : WF d) (cfg : ECfg) (hns : cfg.nsIface = true)
+well-formed document, to (a representative of) the oracle's value — for any leaf fragments whose
+members do (`hN`, `hS`) -/
+theorem build_xexpG {d : Doc} (wf : WF d) (cfg : ECfg) (hns : cfg.nsIface = true)
     (hinj : HashInj d cfg) (c : Ref) (hc : validRef d c = true) (regexOk : RegexOk) (limit : Nat)
-    (sdf : Bool) (k : Kind) (e : Ast) (h : XExp k e) :
+    (sdf : Bool) {NP SP : Ast → Prop}
+    (hN : ∀ e, NP e → ∀ (st : BState) (o : BOut), build regexOk limit true sdf e {} st = .ok o →
+      Sem (F := F) d cfg c .num o.q e)
+    (hS : ∀ e, SP e → ∀ (st : BState) (o : BOut), build regexOk limit true sdf e {} st = .ok o →
+      Sem (F := F) d cfg c .str o.q e)
+    (k : Kind) (e : Ast) (h : XExpG NP SP k e) :
     ∀ (st : BState) (o : BOut), build regexOk limit true sdf e {} st = .ok o →
       Sem (F := F) d cfg c k o.q e := by
   induction h with
   | num lex => intro st o hb; rw [build_lit_num _ _ _ _ _ _ _ _ hb]; exact sem_num d cfg c lex
   | str s => intro st o hb; rw [build_lit_str _ _ _ _ _ _ _ _ hb]; exact sem_str d cfg c s
   | path p hp => intro st o hb; exact sem_path_build wf cfg hns hinj c hc regexOk limit sdf p hp st o hb
+  | numE e he => exact hN e he
+  | strE e he => exact hS e he
   | cmp op cop ka kb a b hop _ _ hk iha ihb =>
     intro st o hb
     obtain ⟨st1, lo, ro, hlo, hro, hq⟩ := build_oper_inv _ _ _ _ _ _ _ _ _ _ hb
@@ -1107,12 +1190,12 @@ theorem build_xexp {d : Doc} (wf : WF d) (cfg : ECfg) (hns : cfg.nsIface = true)
     have hq' : o.q = .boolean true lo.q ro.q := by rw [hq]; rfl
     rw [hq']
     exact sem_or d cfg c ka kb _ _ a b (iha _ _ hlo) (ihb _ _ hro)
-  | not ka a pfx hka _ ih =>
+  | not ka a pfx _ ih =>
     intro st o hb
     obtain ⟨st1, ao, hao, hq⟩ := build_call1_inv regexOk limit true sdf "not" pfx a none false
       (by rfl) (Or.inl rfl) (by rfl) (by decide) (by decide) (by decide) (by decide) _ _ _ hb
     rw [hq]
-    exact sem_not d cfg c ka hka _ a pfx .nil (ih _ _ hao)
+    exact sem_not d cfg c ka _ a pfx .nil (ih _ _ hao)
   | boolean ka a pfx _ ih =>
     intro st o hb
     obtain ⟨st1, ao, hao, hq⟩ := build_call1_inv regexOk limit true sdf "boolean" pfx a (some 1) false
@@ -1135,6 +1218,39 @@ theorem build_xexp {d : Doc} (wf : WF d) (cfg : ECfg) (hns : cfg.nsIface = true)
     rw [hq]
     exact sem_group d cfg c k _ a (ih _ _ hxo)
 
+/-- the arithmetic leaves (C08, `ArithSem.numEC_sem`) compute the oracle's number -/
+theorem sem_numEC_build {d : Doc} (wf : WF d) (cfg : ECfg) (hns : cfg.nsIface = true)
+    (hinj : HashInj d cfg) (c : Ref) (hc : validRef d c = true) (regexOk : RegexOk) (limit : Nat)
+    (sdf : Bool) (e : Ast) (he : ArithSem.NumEC e) (st : BState) (o : BOut)
+    (hb : build regexOk limit true sdf e {} st = .ok o) : Sem (F := F) d cfg c .num o.q e := by
+  obtain ⟨x, h1, h2⟩ := ArithSem.numEC_sem (F := F) wf cfg hns hinj regexOk limit sdf c hc 1 1 he {} st o hb
+  exact ⟨.num x, .num x, none, h1, h2, rfl, rfl⟩
+
+/-- the full arithmetic fragment of C08 (`mod` and `sum` inside the oracle's domain at this context) -/
+theorem sem_numEF_build {d : Doc} (wf : WF d) (cfg : ECfg) (hns : cfg.nsIface = true)
+    (hinj : HashInj d cfg) (c : Ref) (hc : validRef d c = true) (regexOk : RegexOk) (limit : Nat)
+    (sdf : Bool) (e : Ast) (he : ArithSem.NumEF d ⟨c, 1, 1⟩ F e) (st : BState) (o : BOut)
+    (hb : build regexOk limit true sdf e {} st = .ok o) : Sem (F := F) d cfg c .num o.q e := by
+  obtain ⟨x, h1, h2⟩ := ArithSem.numEF_sem (F := F) wf cfg hns hinj regexOk limit sdf c hc 1 1 he {} st o hb
+  exact ⟨.num x, .num x, none, h1, h2, rfl, rfl⟩
+
+/-- the string-function leaves (C09, `StringFns.strE_sem`) compute the oracle's string -/
+theorem sem_strE_build (d : Doc) (cfg : ECfg) (c : Ref) (regexOk : RegexOk) (limit : Nat)
+    (snt sdf : Bool) (e : Ast) (he : StringFns.StrE e) (st : BState) (o : BOut)
+    (hb : build regexOk limit snt sdf e {} st = .ok o) : Sem (F := F) d cfg c .str o.q e := by
+  obtain ⟨s, h1, _, h3, _⟩ := StringFns.strE_sem (F := F) e he d cfg c regexOk limit snt sdf st o hb
+  exact ⟨.str s, .str s, none, h1, h3, rfl, rfl⟩
+
+/-- **C07 through `build`** on `XExp` (arithmetic and string-function leaves) -/
+theorem build_xexp {d : Doc} (wf : WF d) (cfg : ECfg) (hns : cfg.nsIface = true)
+    (hinj : HashInj d cfg) (c : Ref) (hc : validRef d c = true) (regexOk : RegexOk) (limit : Nat)
+    (sdf : Bool) (k : Kind) (e : Ast) (h : XExp k e) :
+    ∀ (st : BState) (o : BOut), build regexOk limit true sdf e {} st = .ok o →
+      Sem (F := F) d cfg c k o.q e :=
+  build_xexpG wf cfg hns hinj c hc regexOk limit sdf
+    (fun e he st o hb => sem_numEC_build wf cfg hns hinj c hc regexOk limit sdf e he st o hb)
+    (fun e he st o hb => sem_strE_build d cfg c regexOk limit true sdf e he st o hb) k e h
+
 /-- **C07 through `build`, boolean-valued expressions**: the built plan of a comparison expression,
 or of any `and`/`or`/`not()`/`boolean()` combination, evaluates to the oracle's truth value -/
 theorem build_bool_expr_sem {d : Doc} (wf : WF d) (cfg : ECfg) (hns : cfg.nsIface = true)
@@ -1145,6 +1261,19 @@ theorem build_bool_expr_sem {d : Doc} (wf : WF d) (cfg : ECfg) (hns : cfg.nsIfac
       Spec.evalTop (F := F) d e c = .ok (.bool t) :=
   sem_bool_out d cfg c _ e (build_xexp wf cfg hns hinj c hc regexOk limit sdf .bool e h st o hb)
 
+/-- the same with the *full* arithmetic fragment of C08 as number-valued leaves (`mod` and `sum`
+inside the oracle's domain at the context node — a hypothesis on the document, hence not part of
+the document-independent `XExp`) -/
+theorem build_bool_expr_sem_full {d : Doc} (wf : WF d) (cfg : ECfg) (hns : cfg.nsIface = true)
+    (hinj : HashInj d cfg) (c : Ref) (hc : validRef d c = true) (regexOk : RegexOk) (limit : Nat)
+    (sdf : Bool) (e : Ast) (h : XExpG (ArithSem.NumEF d ⟨c, 1, 1⟩ F) StringFns.StrE .bool e)
+    (st : BState) (o : BOut) (hb : build regexOk limit true sdf e {} st = .ok o) :
+    ∃ t : Bool, evalP (F := F) d cfg o.q c = .ok (.bool t) ∧
+      Spec.evalTop (F := F) d e c = .ok (.bool t) :=
+  sem_bool_out d cfg c _ e (build_xexpG wf cfg hns hinj c hc regexOk limit sdf
+    (fun e he st o hb => sem_numEF_build wf cfg hns hinj c hc regexOk limit sdf e he st o hb)
+    (fun e he st o hb => sem_strE_build d cfg c regexOk limit true sdf e he st o hb) .bool e h st o hb)
+
 /-- the same for the property's own fragment (`BExp`: comparison expressions over literals and
 predicate-free paths on the seven type pairs, closed under `and`/`or`/`not()`/`boolean()`) -/
 theorem build_bexp_sem {d : Doc} (wf : WF d) (cfg : ECfg) (hns : cfg.nsIface = true)
@@ -1153,7 +1282,7 @@ theorem build_bexp_sem {d : Doc} (wf : WF d) (cfg : ECfg) (hns : cfg.nsIface = t
     (hb : build regexOk limit true sdf e {} st = .ok o) :
     ∃ t : Bool, evalP (F := F) d cfg o.q c = .ok (.bool t) ∧
       Spec.evalTop (F := F) d e c = .ok (.bool t) :=
-  build_bool_expr_sem wf cfg hns hinj c hc regexOk limit sdf e (.of_bexp e h) st o hb
+  build_bool_expr_sem wf cfg hns hinj c hc regexOk limit sdf e (XExp.of_bexp e h) st o hb
 
 /-- through `build`, a single comparison expression, with the explicit value -/
 theorem build_cmp_sem {d : Doc} (wf : WF d) (cfg : ECfg) (hns : cfg.nsIface = true)
@@ -1169,8 +1298,8 @@ theorem build_cmp_sem {d : Doc} (wf : WF d) (cfg : ECfg) (hns : cfg.nsIface = tr
   obtain ⟨st1, lo, ro, hlo, hro, hq⟩ := build_oper_inv _ _ _ _ _ _ _ _ _ _ hbd
   rw [hq, build_cmp_q op cop hop]
   exact sem_cmp_explicit d cfg c op cop hop _ _ _ _ a b
-    (build_xexp wf cfg hns hinj c hc regexOk limit sdf _ a (.of_opnd a ha) _ _ hlo)
-    (build_xexp wf cfg hns hinj c hc regexOk limit sdf _ b (.of_opnd b hb) _ _ hro)
+    (build_xexp wf cfg hns hinj c hc regexOk limit sdf _ a (XExp.of_opnd a ha) _ _ hlo)
+    (build_xexp wf cfg hns hinj c hc regexOk limit sdf _ b (XExp.of_opnd b hb) _ _ hro)
     (pairC07_ok cop _ _ hk)
 
 end XPathV.CmpSem
